@@ -303,13 +303,19 @@ def check(run):
         run.prove(spec_concat(m))
     for w in (1, 2):
         run.prove(spec_concat_empty(w))
+    from contracts import hodk
+    hodk.prove_gen_cent(run, 'C09', run.tier)
     run.discharge()
     bounded(run, 'C09')
-    run.extra['explanation'] = ('wrap and fast_concatenate proved by the E1 engine on the real ASTs; the two-pass kernels gen_cent / gen_sats and the gen_gals assembly '
-                                'are covered by the bounded stand-in (run-time contract evaluation against a sequential reference), not proved')
+    run.extra['explanation'] = ('wrap, fast_concatenate and the two-pass central kernel gen_cent (box observer; tracer subsets x RSD; see contracts/hodk.py) proved by the E1 engine '
+                                'on the real ASTs; gen_sats, the light-cone origin branch and the gen_gals assembly are covered by the bounded stand-in '
+                                '(run-time contract evaluation against a sequential reference), not proved')
     run.assumptions += ['occupation functions are "the package\'s mean-occupation functions": the reference calls the same compiled functions at the arguments the statement names',
                         'exact ties (random == slice edge) are unconstrained and avoided by redrawing', 'gen_sats_nfw (random draws) is outside the statement',
-                        'floats as reals in the E1 pieces; np.linspace/rint/astype contract assumed']
+                        'floats as reals in the E1 pieces; np.linspace/rint/astype contract assumed',
+                        'gen_cent: occupation functions n_cen_LRG / N_cen_ELG_v1 / N_cen_QSO are named uninterpreted functions (their callee contract is "result == F(args)"); '
+                        'Nout[:, c, 0].cumsum() block contract assumed (running sums); the tie comparison (<= or <) is read from the source because the property leaves ties free; '
+                        'randoms > 0 is a precondition (a random of exactly 0 with a disabled first tracer is the zero-width-slice corner)']
 
 
 def replay_file(rec, repo):
